@@ -102,7 +102,7 @@ def parse_tlc_output(out, res):
         m = re.search(r"Action property (\S+) is violated", out)
         if m:
             res.violated = m.group(1)
-    if not res.violated and "Temporal properties were violated" in out:
+    if not res.violated and ("Temporal properties were violated" in out or re.search(r"Temporal property \S+ was violated", out)):
         res.violated = "temporal"
     if not res.violated and re.search(r"Deadlock reached", out):
         res.violated = "deadlock"
